@@ -232,7 +232,13 @@ func superviseShard(p *PropDef, tier string, shard, n int, scratch string, budge
 	var deaths []string
 	var stray int64
 	watchdog := time.Duration(envInt("VERIF_WATCHDOG_S", 150)) * time.Second
-	for attempt := 0; attempt < 8; attempt++ {
+	// a worker that dies or hangs is restarted with the fatal case skipped: up to 8 times where deaths are
+	// the subject (C03, C14), up to 3 times elsewhere (the shard is then given up: exhaustive=false)
+	maxAttempts := 3
+	if p.ID == "C03" || p.ID == "C14" {
+		maxAttempts = 8
+	}
+	for attempt := 0; attempt < maxAttempts; attempt++ {
 		base := filepath.Join(scratch, fmt.Sprintf("s%d-a%d", shard, attempt))
 		out := base + ".json"
 		jpath := base + ".journal"
